@@ -106,7 +106,7 @@ def main():
         print(__doc__)
         return 2
     relfile, props = a[0], a[1].split(',')
-    n, seed, budget, slots, lo, hi, outf = 30, 1, 20, 4, 1, 10 ** 9, None
+    n, seed, budget, slots, lo, hi, outf, rerun = 30, 1, 20, 4, 1, 10 ** 9, None, None
     i = 2
     while i < len(a):
         if a[i] == '--n': n = int(a[i + 1])
@@ -115,11 +115,21 @@ def main():
         elif a[i] == '--slots': slots = int(a[i + 1])
         elif a[i] == '--lines': lo, hi = [int(x) for x in a[i + 1].split('-')]
         elif a[i] == '--out': outf = a[i + 1]
+        elif a[i] == '--rerun': rerun = a[i + 1]
         i += 2
     outf = outf or '/tmp/mutation-%s.jsonl' % relfile.replace('/', '_')
     src, cands = candidates(os.path.join(REPO, relfile), lo, hi)
     random.Random(seed).shuffle(cands)
     cands = cands[:n]
+    if rerun:
+        # only the mutants an earlier campaign file lists as survivors (same file, same line, same replacement text)
+        want = set()
+        for l in open(rerun):
+            r = json.loads(l)
+            if r.get('file') == relfile and r.get('verdict') == 'survived':
+                want.add((r['line'], r['new']))
+        _, allc = candidates(os.path.join(REPO, relfile), 1, 10 ** 9)
+        cands = [c for c in allc if (c[0], c[2].strip()) in want]
     workers = max(2, 16 // slots)
     q = queue.Queue()
     for c in cands:
